@@ -154,15 +154,17 @@ func Reverse(v reflect.Value) (interface{}, error) {
 }
 
 // Sort (golint)
-func Sort(v reflect.Value, swap jtypes.OptionalCallable) (interface{}, error) {
-	v = jtypes.Resolve(v)
+func Sort(arg reflect.Value, swap jtypes.OptionalCallable) (interface{}, error) {
+	v := jtypes.Resolve(arg)
 
 	switch {
 	case !v.IsValid():
 		return nil, jtypes.ErrUndefined
 	case !jtypes.IsArray(v):
-		if v.CanInterface() {
-			return []interface{}{v.Interface()}, nil
+		// Return the argument itself, not the resolved value.
+		// A function value is only a Callable as a pointer.
+		if arg.CanInterface() {
+			return []interface{}{arg.Interface()}, nil
 		}
 	case swap.Callable != nil:
 		return sortArrayFunc(v, swap.Callable)
@@ -360,6 +362,12 @@ func forceArray(v reflect.Value) reflect.Value {
 	v = jtypes.Resolve(v)
 	if !v.IsValid() || jtypes.IsArray(v) {
 		return v
+	}
+	// Resolve dereferences pointers but a function value is
+	// only a Callable as a pointer. Restore it.
+	if v.Kind() == reflect.Struct && v.CanAddr() &&
+		reflect.PtrTo(v.Type()).Implements(typeCallable) {
+		v = v.Addr()
 	}
 	vs := reflect.MakeSlice(reflect.SliceOf(v.Type()), 0, 1)
 	vs = reflect.Append(vs, v)
